@@ -16,6 +16,7 @@ pub mod c11;
 pub mod c12;
 pub mod c13;
 pub mod c14;
+pub mod c15;
 pub mod c16;
 pub mod c17;
 pub mod lines;
@@ -41,6 +42,7 @@ pub fn run_property(id: &str, ctx: &Ctx) -> bool {
         "C12" => c12::run(ctx),
         "C13" => c13::run(ctx),
         "C14" => c14::run(ctx),
+        "C15" => c15::run(ctx),
         "C16" => c16::run(ctx),
         "C17" => c17::run(ctx),
         _ => return false,
@@ -64,6 +66,7 @@ pub fn replay_property(id: &str, w: &mut Worker, sub: &str, case: &serde_json::V
         "C12" => c12::replay(w, sub, case),
         "C13" => c13::replay(w, sub, case),
         "C14" => c14::replay(w, sub, case),
+        "C15" => c15::replay(w, sub, case),
         "C16" => c16::replay(w, sub, case),
         "C17" => c17::replay(w, sub, case),
         _ => None,
